@@ -90,7 +90,127 @@ def generate(rng, tier):
     # calendar delays (DelayFixed accepts dateutil.relativedelta): run on the real driver, judged by the property monitor
     # only (the Coq model counts integer microseconds; the oracle for "t - delay" is dateutil itself)
     cal = [{"sched": sc.gen_calendar_link(rng)} for _ in range(k)]
-    return list(CORPUS) + SCHED_CORPUS + [_gen(rng) for _ in range(n)] + [_gen_sched(rng) for _ in range(m)] + cal
+    trees = [_gen_tree(rng) for _ in range(120 if tier == "quick" else 2500)]
+    return list(CORPUS) + SCHED_CORPUS + [_gen(rng) for _ in range(n)] + [_gen_sched(rng) for _ in range(m)] + cal + trees
+
+
+def _gen_tree(rng):
+    """one output, a shared trunk of adapters without per-request state (at least one DelayToPush or DelayFixed) that
+    branches to 2-3 consumers behind their own sub-chains; consumers pull at their own pace; a consumer may be
+    push-based (CallbackInput) and pull the announced time while it is being notified"""
+    unit = rng.choice(UNITS)
+    trunk = []
+    for _ in range(rng.choice([1, 1, 2])):
+        r = rng.random()
+        trunk.append(["topush"] if r < 0.6 else ["fixed", unit * rng.choice([1, 2, 3])] if r < 0.85 else ["pass"])
+    if rng.random() < 0.3:
+        trunk.insert(0, ["pass"])
+    nc = rng.choice([2, 2, 3])
+    subs, cb = [], []
+    for _ in range(nc):
+        ch = []
+        for _ in range(rng.choice([0, 0, 1, 1, 2])):
+            r = rng.random()
+            ch.append(["pass"] if r < 0.35 else ["fixed", unit * rng.choice([1, 2])] if r < 0.65 else
+                      ["topull", rng.choice([1, 2]), unit * rng.choice([0, 1])] if r < 0.9 else ["topush"])
+        subs.append(ch)
+        cb.append(rng.random() < 0.25)
+    init = unit * rng.choice([0, 0, 2])
+    ops = [["push", init]]
+    tpub = init
+    treq = [init] * nc
+    pace = [rng.choice([1, 1, 2, 4]) for _ in range(nc)]
+    for _ in range(rng.randint(8, 40)):
+        if rng.random() < 0.4:
+            tpub += unit * rng.choice([1, 2, 3, 5]) + rng.choice([0, 0, 1])
+            ops.append(["push", tpub])
+        else:
+            i = rng.randrange(nc)
+            if cb[i]:
+                continue
+            treq[i] += unit * pace[i] * rng.choice([0, 1, 1, 2]) + rng.choice([0, 0, 1])
+            ops.append(["pull", i, treq[i]])
+    return {"tree": {"trunk": trunk, "subs": subs, "cb": cb}, "init": init, "ops": ops}
+
+
+def _run_tree(case):
+    t_init = T(case["init"])
+    tr = case["tree"]
+    out = fm.Output(name="Out")
+    node = out
+    ads = []
+    for a in reversed(tr["trunk"]):
+        ad = schedlib.mk_adapter(a)
+        ads.append(ad)
+        node = node >> ad
+    seen = []
+    eff, res = [], []      # the effective script (with the pulls made inside notifications) and its results
+
+    def do_pull(i, inp, time):
+        seen.clear()
+        try:
+            d = inp.pull_data(time)
+            r = ["ok", int(round(fin.scalar_of(d)))]
+        except Exception as e:  # noqa
+            r = [err_class(e)]
+        eff.append(["pull", i, us_of(time)])
+        res.append([seen[0] if seen else None, r, len(seen)])
+
+    inputs = []
+    started = [False]
+    for i, sub in enumerate(tr["subs"]):
+        if tr["cb"][i]:
+            inp = fm.CallbackInput(callback=(lambda caller, time, i=i: started[0] and do_pull(i, caller, time)), name=f"In{i}")
+        else:
+            inp = fm.Input(name=f"In{i}")
+        n2 = node
+        for a in reversed(sub):
+            ad = schedlib.mk_adapter(a)
+            ads.append(ad)
+            n2 = n2 >> ad
+        n2 >> inp
+        inputs.append(inp)
+    for inp in inputs:
+        inp.ping()
+    out.push_info(fm.Info(time=t_init, grid=fm.NoGrid()))
+    for inp in inputs:
+        inp.exchange_info(fm.Info(time=t_init, grid=fm.NoGrid()))
+    real = out.get_data
+
+    def get_data(time, target):
+        seen.append(us_of(time))
+        return real(time, target)
+
+    out.get_data = get_data
+    started[0] = True
+    npush = 0
+    for op in case["ops"]:
+        if op[0] == "push":
+            eff.append(["push", op[1]])
+            res.append(None)
+            out.push_data(float(npush), T(op[1]))   # push-based consumers pull inside this call
+            npush += 1
+        else:
+            do_pull(op[1], inputs[op[1]], T(op[2]))
+    return {"eff": eff, "res": res,
+            "inits": [us_of(a.initial_time) if hasattr(a, "initial_time") else None for a in ads]}
+
+
+def _projections(case, obs):
+    """the per-consumer links of a tree case: (link case, link observation)"""
+    tr = case["tree"]
+    out = []
+    for i, sub in enumerate(tr["subs"]):
+        ops, res = [], []
+        for op, r in zip(obs["eff"], obs["res"]):
+            if op[0] == "push":
+                ops.append(op)
+                res.append(None)
+            elif op[1] == i:
+                ops.append(["pull", op[2]])
+                res.append(r)
+        out.append(({"chain": sub + tr["trunk"], "init": case["init"], "ops": ops}, {"res": res, "inits": []}))
+    return out
 
 
 def model_applies(case):
@@ -100,6 +220,8 @@ def model_applies(case):
 def run_impl(case):
     if "sched" in case:
         return {"sched": schedlib.run_case(case["sched"])}
+    if "tree" in case:
+        return _run_tree(case)
     t_init = T(case["init"])
     out = fm.Output(name="Out")
     inp = fm.Input(name="In")
@@ -140,12 +262,16 @@ def run_impl(case):
 def coq_case(case, obs):
     if "sched" in case:
         return C("CSched", sc.coq_case(case["sched"], obs["sched"]))
+    if "tree" in case:
+        return C("CTree", L(_coq_case_link(c, o) for c, o in _projections(case, obs)))
     return C("CLink", _coq_case_link(case, obs))
 
 
 def coq_obs(case, obs):
     if "sched" in case:
         return C("OSched", sc.coq_obs(case["sched"], obs["sched"]))
+    if "tree" in case:
+        return C("OTree", L(_coq_obs_link(c, o) for c, o in _projections(case, obs)))
     return C("OLink", _coq_obs_link(case, obs))
 
 
@@ -215,6 +341,23 @@ def monitor(case, obs):
         # the C02 monitor (lagging closure from the documented shifts + observed request times) and C04's verdict
         from . import c02, c04
         return c02.monitor(case["sched"], obs["sched"]) or c04.monitor(case["sched"], obs["sched"])
+    if "tree" in case:
+        if any(i is not None and i != case["init"] for i in obs["inits"]):
+            return f"adapter start times {obs['inits']} differ from the link's info time {case['init']}"
+        for i, (c, o) in enumerate(_projections(case, obs)):
+            if case["tree"]["cb"][i]:
+                got = [x[1] for x in c["ops"] if x[0] == "pull"]
+                want = [x[1] for x in case["ops"] if x[0] == "push"]
+                if got != want:
+                    return f"push-based consumer {i} was notified of / pulled {got}, published were {want}"
+            m = _monitor_link(c, o)
+            if m:
+                return f"consumer {i} (chain {c['chain']}): {m}"
+        return None
+    return _monitor_link(case, obs)
+
+
+def _monitor_link(case, obs):
     if any(i is not None and i != case["init"] for i in obs["inits"]):
         return f"adapter start times {obs['inits']} differ from the link's info time {case['init']}"
     exp = _expected(case)
@@ -243,6 +386,15 @@ def monitor(case, obs):
 def nontrivial(case, obs):
     if "sched" in case and sc.has_calendar(case["sched"]):
         return True
+    if "tree" in case:
+        # two consumers whose requests at the source interleave (one is served for a later time than the other asks next)
+        last = {}
+        for op, r in zip(obs["eff"], obs["res"]):
+            if op[0] == "pull" and r[0] is not None:
+                if any(v > r[0] for k, v in last.items() if k != op[1]):
+                    return True
+                last[op[1]] = r[0]
+        return False
     if "sched" in case:
         return any(sum(1 for a in i["chain"] if a[0] == "fixed") >= 2 for c in case["sched"]["comps"] for i in c["inputs"])
     exp = _expected(case)
@@ -254,10 +406,11 @@ def nontrivial(case, obs):
 def distribution(cases, obss):
     from collections import Counter
     nsched = sum(1 for c in cases if "sched" in c)
-    pairs = [(c, o) for c, o in zip(cases, obss) if "sched" not in c]
+    ntree = sum(1 for c in cases if "tree" in c)
+    pairs = [(c, o) for c, o in zip(cases, obss) if "sched" not in c and "tree" not in c]
     cases = [c for c, _ in pairs]
     obss = [o for _, o in pairs]
-    return {"scheduler_cases": nsched, "adapter_kinds": dict(Counter(a[0] for c in cases for a in c["chain"])),
+    return {"scheduler_cases": nsched, "tree_cases": ntree, "adapter_kinds": dict(Counter(a[0] for c in cases for a in c["chain"])),
             "chain_lengths": dict(Counter(len(c["chain"]) for c in cases)),
             "pull_results": dict(Counter(r[1][0] for o in obss if "res" in o for r in o["res"] if r is not None))}
 
@@ -268,6 +421,10 @@ def shrink_candidates(case):
             yield {"sched": c}
         return
     ops = case["ops"]
+    if "tree" in case:
+        for i in range(len(ops) - 1, 0, -1):
+            yield dict(case, ops=ops[:i] + ops[i + 1:])
+        return
     for i in range(len(ops) - 1, 0, -1):
         yield {"chain": case["chain"], "init": case["init"], "ops": ops[:i] + ops[i + 1:]}
     for i in range(len(case["chain"])):
